@@ -172,7 +172,7 @@ def compare(case, obs, replies):
         sv = U.scale_value(m[1])
         if f == 0.0 or abs(f) == float('inf') or not (mpmath.mpf(10) ** -120 < sv < mpmath.mpf(10) ** 120):
             continue
-        if not U.close(sv, f) or root_dict(m[2]) != d:
+        if not U.close(sv, f) or not U.dims_close(root_dict(m[2]), d):
             return 'expr %s: model unit %s %s, implementation %s' % (json.dumps(r['tree'])[:400], m[1], m[2], o[1])
     return None
 
@@ -213,7 +213,7 @@ def oracle(case, obs):
         wantd = {U.PINT_BASE.get(k, k): v for k, v in want[1].items()}
         import re
         wantd = {re.sub(r'^\[\d+:(.*)\]$', r'\1', k): v for k, v in wantd.items()}
-        if not U.close(f, want[0]) or d != wantd:
+        if not U.close(f, want[0]) or not U.dims_close(d, wantd):
             composite = ':composite-exponent' if has_composite_exponent(t) else ''
             fails.append({'key': 'wrong-unit' + composite,
                           'detail': '%s: evaluate_units gives %s, the leaves imply %s %s'
